@@ -47,7 +47,10 @@ impl ExampleAttributeArguments {
 
             //MAIN
             if meta.path().is_ident("main"){
-                self.main = true;
+                match meta {
+                    syn::Meta::Path(_) => { self.main = true; },
+                    _ => { abort!(meta, error::EXPECT_IDENT; help=error::AVAIL_EXAMPLE) },
+                }
             }
             // PATH
             else if meta.path().is_ident("path") { 
@@ -58,6 +61,9 @@ impl ExampleAttributeArguments {
             else if meta.path().is_ident("expand") {
                 if let Some(meta_list) = super::get_list( meta,None ){
                     self.expand = vec![];
+                    for m in meta_list.iter(){
+                        if let syn::Meta::Path(_) = m {} else { abort!(m, error::EXPECT_IDENT; help=error::AVAIL_EXPAND) }
+                    }
                     for ident in super::get_idents(&meta_list){
                         if let Some(mac) = Self::mac_from_ident(&ident){
                             self.expand.push(mac);
@@ -69,6 +75,9 @@ impl ExampleAttributeArguments {
                     abort!(meta,error::EXPECT_LIST)
                 }
             }
+
+            // UNKNOWN ARGUMENT
+            else { error::unknown_attr_arg("example",meta.path() ) }
         }
     }
 
